@@ -54,6 +54,12 @@ def h(obj):
                         .encode()).hexdigest()[:12]
 
 
+def pick(key, frac, salt=''):
+    """seeded yes/no for an item, from its CONTENT (not from its position in a stream: the order in which TLC prints
+       states varies from run to run with several workers)"""
+    return int(h([seed(), salt, key]), 16) % 100000 < frac * 100000
+
+
 # --------------------------------------------------------------------- TLC
 
 class TLCResult:
